@@ -162,7 +162,11 @@ func cfgStart(variant string) *cfgProc {
 
 // cfgBatch sends the inner op lines to the variant's child and returns one answer per line.
 func cfgBatch(variant string, inner []string) []string {
-	p := cfgStart(variant)
+	return cfgStart(variant).batch(inner)
+}
+
+// batch sends lines to the child and returns one answer per line.
+func (p *cfgProc) batch(inner []string) []string {
 	ans := make([]string, len(inner))
 	if p.dead != "" {
 		for i := range ans {
@@ -170,7 +174,10 @@ func cfgBatch(variant string, inner []string) []string {
 		}
 		return ans
 	}
+	done := make(chan struct{})
+	defer func() { <-done }() // the writer must be out of the bufio.Writer before the next batch uses it
 	go func() {
+		defer close(done)
 		for _, l := range inner {
 			p.in.WriteString(l)
 			p.in.WriteByte('\n')
